@@ -49,6 +49,9 @@ LFirstBad(s, def, evs, i) ==
             \/ ~SameRes(e.value, Served(r.s, def))
             \/ (e.ev = "change" /\ r.pub /\ ~ModelEq(e.old, r.old))
             \/ (e.ev = "delete" /\ e.hasdata /\ ~SameRes(e.deleted, s))
+            \* a stored resource that is deleted: the listeners are handed its stored value (datajudged: the
+            \* configuration hands over the stored document itself, not a projection onto a Go type)
+            \/ (e.ev = "delete" /\ e.datajudged /\ e.pub /\ ~IsMissing(s) /\ ~e.hasdata)
          THEN i ELSE LFirstBad(r.s, def, evs, i + 1)
 \* what is stored after a whole history (events that cannot be applied leave it unchanged)
 RECURSIVE LFold(_, _, _, _)
